@@ -6,6 +6,13 @@ def F(v):
     return v if isinstance(v, Fr) else Fr(v)
 
 
+def is_degenerate(g):
+    """A region with a NaN or infinite parameter contains no point (every comparison with NaN is false)."""
+    import math
+    keys = ("x1", "y1", "x2", "y2") if g["type"] == "RectangularRegion" else ("cx", "cy", "r")
+    return any(isinstance(g.get(k), float) and (math.isnan(g[k]) or math.isinf(g[k])) for k in keys)
+
+
 def norm_rect(g):
     x1, x2 = sorted((F(g["x1"]), F(g["x2"])))
     y1, y2 = sorted((F(g["y1"]), F(g["y2"])))
@@ -14,6 +21,8 @@ def norm_rect(g):
 
 def contains_point(g, x, y):
     """g is a dict in the plugin's API format (type RectangularRegion / CircularRegion)."""
+    if is_degenerate(g):
+        return False
     x, y = F(x), F(y)
     if g["type"] == "RectangularRegion":
         x1, y1, x2, y2 = norm_rect(g)
@@ -25,7 +34,7 @@ def contains_point(g, x, y):
 
 
 def is_empty(g):
-    return g["type"] == "CircularRegion" and F(g["r"]) < 0
+    return is_degenerate(g) or (g["type"] == "CircularRegion" and F(g["r"]) < 0)
 
 
 def contains_region(outer, inner):
@@ -55,6 +64,8 @@ def any_contains(regions, x, y):
 
 def extreme_points(g):
     """A finite set of points of g that witnesses non-containment in any rectangle, plus samples."""
+    if is_degenerate(g):
+        return []
     if g["type"] == "RectangularRegion":
         x1, y1, x2, y2 = norm_rect(g)
         return [(x1, y1), (x1, y2), (x2, y1), (x2, y2), ((x1 + x2) / 2, (y1 + y2) / 2)]
